@@ -123,6 +123,9 @@ impl LabProp for P05 {
         if g.any_regex(&|r| matches!(r, Regex::Pred(Some(_)) | Regex::Assert(_) | Regex::Choice(_) | Regex::Return)) {
             return Err("has ?n, !n, ordered choice or &");
         }
+        if !crossing_shapes(g).is_empty() {
+            return Err("node creation crossing a marker or an undoable attempt (not properly nested)");
+        }
         if g.rules.iter().any(|r| r.body.is_none()) || g.any_regex(&|r| matches!(r, Regex::Paren(None))) {
             return Err("empty rule body");
         }
